@@ -29,6 +29,8 @@ HeaderLibs ==
      { [EmptyLib EXCEPT !.version = <<v>>] : v \in Versions }
   \cup { [EmptyLib EXCEPT !.version = <<v>>, !.names_case_sensitive = <<o>>] : v \in {Dec(FALSE, 53, 1), Dec(FALSE, 54, 1)}, o \in OnOff }
   \cup { [EmptyLib EXCEPT !.version = <<v>>, !.no_wire_extension_at_pin = <<o>>] : v \in Versions, o \in OnOff }
+  \* the same two statements WITHOUT a VERSION statement: the default version is 5.8, where both are obsolete (an error is expected)
+  \cup { [EmptyLib EXCEPT !.names_case_sensitive = <<o>>] : o \in OnOff } \cup { [EmptyLib EXCEPT !.no_wire_extension_at_pin = <<o>>] : o \in OnOff }
   \cup { [EmptyLib EXCEPT !.bus_bit_chars = <<b>>] : b \in {"\"[]\"", "\"<>\""} }
   \cup { [EmptyLib EXCEPT !.divider_char = <<b>>] : b \in {"\"/\"", "\"|\""} }
   \cup { [EmptyLib EXCEPT !.manufacturing_grid = <<Dn(i)>>] : i \in {2, 7, 10} }
